@@ -851,6 +851,16 @@ def rule_R7(P, rep):
                 if cv is not None:
                     bounds.append(cv + (1 if nd["op"] == "<=" else 0))
         n += 1
+        # direction: the destination slot is the lower one (`buckets[i - K] = buckets[i]`)
+        ln_, rn_ = F.nodes[F.strip(lh)], F.nodes[F.strip(rh)]
+        if ln_.get("k") == "idx" and rn_.get("k") == "idx":
+            di, si = common.const_eval(F, ln_["i"]), common.const_eval(F, rn_["i"])
+            dtxt, stxt = canon.expr(F, ln_["i"], 0), canon.expr(F, rn_["i"], 0)
+            down = (di is not None and si is not None and di < si) or re.match(r"^%s - \d+$" % re.escape(stxt), dtxt) is not None or \
+                re.match(r"^%s \+ \d+$" % re.escape(dtxt), stxt) is not None
+            rep.ob("R7", "ABTI_mem_pool_free moves kept buckets to LOWER slots (buckets[%s] = buckets[%s])" % (dtxt, stxt), down,
+                   "the copy goes from the lower to the higher slot: the buckets just returned to the global pool stay "
+                   "referenced by the local pool and their blocks are handed out twice", loc=F.loc(i), site="mem_pool_free/shift-direction")
         rep.ob("R7", "ABTI_mem_pool_free shifts every kept bucket down (loop runs to %d)" % N, bounds == [N],
                "the shift loop stops at %s of %d buckets: a returned bucket stays referenced, a kept one is lost" % (bounds, N),
                loc=F.loc(i), site="mem_pool_free/shift")
